@@ -375,7 +375,7 @@ func TestVerifC11API(t *testing.T) {
 	h := verifC11APISetup(t, true)
 	defer h.srv.Close()
 	h.rec = rec
-	n := kit.Tier(40000, 2000000)
+	n := kit.Tier(40000, 400000) // per endpoint; thorough is scaled down from 2 M (a TCP exchange per case)
 	for _, e := range []struct{ entry, path string }{
 		{"apiregserver.registerBidirectional", "/register-bidirectional"},
 		{"apiregserver.register", "/register"},
